@@ -100,7 +100,13 @@ class C16(Prop):
             big = rng.choice([-64.0, 64.0])
             for k in names:
                 data[k][n1:] = [big if rng.random() < 0.7 else -big for _ in range(ext)]
-        return {'formula': f, 'data': data, 'n1': n1}
+        case = {'formula': f, 'data': data, 'n1': n1}
+        if rng.random() < 0.3:
+            # a sampling period other than 1 s, bounds written in its unit; and possibly a neighbour: another
+            # specification object with the same text and a finer period, evaluated first in the same process
+            case['period'] = rng.choice([[1, 's'], [1, 'ms'], [500, 'ms'], [2, 's'], [1, 'us'], [2, 'ms']])
+            case['neighbour'] = rng.random() < 0.6
+        return case
 
     def judge(self, case):
         if case.get('dense'):
@@ -122,9 +128,29 @@ class C16(Prop):
             return v
         settled = max(0, n1 - h)
         rel = rel_for(f)
+        sd, times = None, None
+        if case.get('period'):
+            from fractions import Fraction as Fr
+            from rtverif.props.c08 import U, dur_in
+            p, pu = case['period']
+            text = lang.to_text(f, ivl_printer=lambda iv: '[%s%s:%s%s]' % (dur_in(iv[0] * p * U[pu], pu), pu,
+                                                                         dur_in(iv[1] * p * U[pu], pu), pu))
+            sd = {'period': (p, pu, 0.1)}
+            times = [float(Fr(i * p * U[pu], U['s'])) for i in range(n2)]
+            v.info['period:%s%s' % (p, pu)] = 1
+            finer = {'s': 'ms', 'ms': 'us', 'us': 'ns'}[pu]
+            heavy = any(g[0] in ('since', 'until', 'unless') and g[1] is not None and g[1][1] > 0 for g in lang.walk(f))
+            if case.get('neighbour') and not heavy:
+                try:
+                    drive.dt_offline(text, names, data, min(n1, 2), times=[float(Fr(i * p * U[finer], U['s']))
+                                                                          for i in range(min(n1, 2))],
+                                     sd={'period': (p, finer, 0.1)})
+                    v.info['neighbour-specs'] = 1
+                except Exception:
+                    pass
         try:
-            r1 = drive.values(drive.dt_offline(text, names, data, n1))
-            r2 = drive.values(drive.dt_offline(text, names, data, n2))
+            r1 = drive.values(drive.dt_offline(text, names, data, n1, times=times and times[:n1], sd=sd))
+            r2 = drive.values(drive.dt_offline(text, names, data, n2, times=times, sd=sd))
         except Exception as e:
             v.bad('raises:' + type(e).__name__, '%s: evaluate raised %s: %s' % (text, type(e).__name__, e))
             return v
